@@ -284,7 +284,7 @@ func drawC03(t *rapid.T) C03Case {
 func TestC03(t *testing.T) {
 	rec := obs.New("C03")
 	defer rec.Flush(true)
-	rec.SetExtra("rule", "rapid: goal-directed scenario with 1-3 later blocks, a panel of 3-5 queries generalised from authority-level and block-level facts, (i) a check-free block (facts and error-free rules aimed at the failing checks and allow policies) inserted at a drawn position, (ii) a permutation of the later blocks (token rebuilt in that order), (iii) block checks that need facts derived at authority level. Oracle: outcome class, number of failed checks and every panel answer (after Authorize, and on an authorizer that was never authorized) are identical with and without the check-free block and for every block order; panel answers after Authorize equal the reference query over the authority-level closure; the verdict equals the reference. Non-trivial = a (wrong) model in which block facts and rules were authority-level would change the verdict, the failed-check count or a panel answer, or a block check is supported only by a derived authority-level fact; distinct by (token, authorizer, block, position, order).")
+	rec.SetExtra("rule", "rapid: goal-directed scenario with 1-3 later blocks, a panel of 3-5 queries generalised from authority-level and block-level facts, (i) a check-free block (facts and error-free rules aimed at the failing checks and allow policies) inserted at a drawn position, (ii) a permutation of the later blocks (token rebuilt in that order), (iii) block checks that need facts derived at authority level, (iv) a set carried by an authority-level or authorizer fact that a later block's rule or check computes with (intersection / union / contains) while a panel query reads the fact. Oracle: outcome class, number of failed checks and every panel answer (after Authorize, and on an authorizer that was never authorized) are identical with and without the check-free block and for every block order; panel answers after Authorize equal the reference query over the authority-level closure; the verdict equals the reference. Non-trivial = a (wrong) model in which block facts and rules were authority-level would change the verdict, the failed-check count or a panel answer, or a block check is supported only by a derived authority-level fact; distinct by (token, authorizer, block, position, order).")
 	rec.SetExtra("assumptions", []string{"the inserted block's rules are error-free: a rule that raises an error legitimately fails the authorization"})
 	harness.RunWith(t, harness.Spec[C03Case]{ID: "C03", Draw: drawC03, Check: checkC03}, rec)
 }
